@@ -221,6 +221,26 @@ def _check_prob_dists(ctx, rep, cp: Func):
             pol = g.get(flag, g.get("self.on_para_eq_constraint"))
             before = len(forms)
             affine(inline(cp, n.value, defs={k: v for k, v in single_defs(cp).items()}), pol)
+    # path-sensitive reading: per control-flow path, the returned value with every local replaced by what it holds on that path
+    from ..symsum import cases, returning
+    cs = cases(cp)
+    if cs:
+        pforms = []
+        for c in returning(cs):
+            pol = None
+            for t, p_, _ in c.guards:
+                if t in (flag, "self.on_para_eq_constraint"):
+                    pol = p_
+            if c.value is None:
+                continue
+            keep, forms = forms, []
+            for x in ast.walk(c.value):
+                if isinstance(x, (ast.BinOp, ast.IfExp)):
+                    affine(x, pol)
+            pforms.extend(forms)
+            forms = keep
+        if {pol for pol, _ in pforms} >= {True, False}:
+            forms = pforms
     got = {}
     for pol, v in forms:
         got.setdefault(pol, set()).add(v)
@@ -247,7 +267,29 @@ def _coeff_stores(f: Func):
             if kind is None:
                 continue
             g = {t: pol for t, pol, _ in guards_of(n)}
-            out.append((kind, g.get("on_para_eq_constraint"), n.value, n))
+            fl = g.get("on_para_eq_constraint")
+            if fl is None and isinstance(n.value, ast.Name):
+                # the stored local is bound once per value of the flag: `a = X` / `a, b = (X, Y)` under the guard
+                alts = []
+                for d in own_nodes(f.node):
+                    if not (isinstance(d, ast.Assign) and len(d.targets) == 1):
+                        continue
+                    t, v = d.targets[0], d.value
+                    val = None
+                    if isinstance(t, ast.Name) and t.id == n.value.id:
+                        val = v
+                    elif isinstance(t, ast.Tuple) and isinstance(v, ast.Tuple) and len(t.elts) == len(v.elts):
+                        for x, y in zip(t.elts, v.elts):
+                            if isinstance(x, ast.Name) and x.id == n.value.id:
+                                val = y
+                    if val is not None:
+                        gd = {t_: pol for t_, pol, _ in guards_of(d)}
+                        alts.append((gd.get("on_para_eq_constraint"), val))
+                if len(alts) == 2 and {a for a, _ in alts} == {True, False}:
+                    for a, val in alts:
+                        out.append((kind, a, val, n))
+                    continue
+            out.append((kind, fl, n.value, n))
     return out
 
 
@@ -272,8 +314,10 @@ def _m45(ctx, rep):
     # ------------------------------------------------ process tomography
     f = ix.func(T + "standard_qpt.calc_c_qpt")
     st = _coeff_stores(f)
-    rows = {fl: deep_inline(f, v) for k, fl, v, n in st if k == "1st"}
-    offs = {fl: deep_inline(f, v) for k, fl, v, n in st if k == "0th"}
+    from ..astutil import element_defs
+    el = element_defs(f)
+    rows = {fl: deep_inline(f, v, extra=el) for k, fl, v, n in st if k == "1st"}
+    offs = {fl: deep_inline(f, v, extra=el) for k, fl, v, n in st if k == "0th"}
     con = "process: rows"
     full = rows.get(False)
     if full is None or rows.get(True) is None:
@@ -286,7 +330,7 @@ def _m45(ctx, rep):
         else:
             a0, a1 = unparse(base.args[0]), unparse(base.args[1])
             loopvars = {l.target.elts[1].id if isinstance(l.target, ast.Tuple) else unparse(l.target): unparse(l.iter)
-                        for l in own_nodes(f.node) if isinstance(l, ast.For) and "povm" in unparse(l.iter)}
+                        for l in own_nodes(f.node) if isinstance(l, (ast.For, ast.comprehension)) and "povm" in unparse(l.iter)}
             is_povm = a0 in loopvars and "vecs" in loopvars[a0]
             is_state = a1.endswith(".vec") and "state" in a1
             rep.check(is_povm and is_state, "M4", f, con, "outer(povm element, state).flatten(): index r*d^2 + c multiplies HS[r, c]",
@@ -324,6 +368,8 @@ def _m45(ctx, rep):
                   "rows are %s / %s" % (unparse(r_t), unparse(r_f)), node=f.node)
     off = offs.get(True)
     try:
+        if off is None or offs.get(False) is None:
+            raise Undecided("expected one offset store per value of on_para_eq_constraint")
         good = isinstance(off, ast.BinOp) and isinstance(off.op, ast.Div) and isinstance(off.left, ast.Subscript) and unparse(off.left.value) in pv \
             and is_num(off.left.slice, 0) and _size_poly(off.right, f) == Poly.sym("d") ** Fraction(1, 2) and offs.get(False) is not None and is_num(offs.get(False), 0)
         rep.check(good, "M5", f, "state: offset", "offset = povm[0] * d^-1/2", "offset is %s, the implied coefficient is d^-1/2" % (unparse(off) if off is not None else None),
